@@ -24,11 +24,54 @@ HARNESS = "c10"
 LEAN_MODULES = ["NanoVerif.Props.C10"]
 NS = "NanoVerif.WLearner."
 OBLIGATIONS = [NS + t for t in [
-    "const_fit_optimal",
+    "const_fit_optimal", "affine_fit_optimal", "affine_constant_branch_optimal", "running_moments_eq_prefix",
+    "stump_fit_optimal", "stump_fit_eq_brute", "hinge_fit_eq_brute", "table_fit_eq_brute", "dstep_fit_optimal",
+    "fit_predict_reproduces_rss", "fit_assignment_independent",
+    "predict_adds", "predict_missing_zero", "predict_eq_table_of_split", "scale_scales", "merge_preserves_sum",
+    "mergeSort_sortSpec", "sweep_sound", "sweep_complete", "findHash_sorted",
 ]]
-TRUSTED = []
-ASSUMPTIONS = []
-RULE = ""
+TRUSTED = [
+    "Lean 4.33.0 kernel; Mathlib modules Mathlib.Algebra.Order.Field.Basic, Mathlib.Algebra.Order.Field.Rat, "
+    "Mathlib.Tactic.Ring/Linarith/Positivity/FieldSimp/NormNum (only in Proofs/WLearner*.lean and Props/C10.lean)",
+    "axioms: at most propext, Classical.choice, Quot.sound (audited per theorem on every run)",
+    "hand-written generic-scalar model NanoVerif/Model/WLearner.lean of src/wlearner/{stump,hinge,affine,table,dtree,accumulator,"
+    "criterion,util,single}.cpp, include/nano/core/reduce.h, src/dataset/hash.cpp; tied to the code by the correspondence run: "
+    "harness/c10.cpp builds an in-memory datasource/dataset from the op line (1..16 pool threads), calls fit / predict / split / "
+    "scale / clone / wlearner::merge / features of the real learners, vs the same model compiled at Float (driver_c10)",
+    "Lean Float = g++ double for + - * / log in the same order (no -ffast-math, no FMA contraction on the x86-64 baseline); Eigen "
+    "may sum the <= 3 outputs in another order: scores / tables / predictions are compared with rtol 1e-9, atol 1e-12",
+    "std::sort returns a sorted permutation (SortSpec; List.mergeSort with the pair order is proved to be one); the pool hands "
+    "every feature chunk to exactly one worker (C17) - hypothesis hperm of fit_assignment_independent",
+    "tools/props/c10.py generator + independent python oracle (brute force over features x mid-point thresholds x directions / "
+    "label sets with least-squares coefficients from centred sums); harness/c10.cpp; g++/libstdc++/Eigen",
+]
+ASSUMPTIONS = [
+    "theorems are about exact arithmetic (any linear ordered field) and the RSS criterion; AIC/AICc/BIC (std::log) are modelled "
+    "at Float and covered by the correspondence run and the consistency clauses of the oracle only",
+    "hfin: no computed score overflows (std::isfinite true); hbig: every computed score is below no_fit_score() = DBL_MAX",
+    "the fit of kbest / ksplit tables and of decision trees is not modelled: their fitted parameters are read from the "
+    "implementation's answer (augmented op) and predict / split / scale / merge are evaluated on them; 'tree of depth 1 = stump' "
+    "and 'the root of a tree is the stump' are checked by the oracle (bitwise) and through the modelled stump fit",
+    "selection-dependent fields are compared with the model only when the gap between the best and the second-best candidate "
+    "score exceeds 1e-9*max(1,|score|) (exact ties are broken by the thread schedule, C18); the oracle's clauses are independent "
+    "of the selection and always apply",
+    "oracle tolerance: |score - max(brute-force minimum RSS, 1e3*eps)| <= 1e-9 * max(1, sum of squared residuals of the fitted "
+    "samples) + 1e3*eps; data are integers / dyadic / one-decimal values in [-30, 30] so that the accumulated sums are (nearly) "
+    "exact; scalar features whose relative variance lies strictly between rounding noise and epsilon1 (1e-10) are not generated "
+    "(there affine's constant() guard deliberately prefers the constant fit)",
+    "memory safety (ASan/UBSan) is observed in the thorough tier only; dtree_wlearner_t::do_split reports groups() = leaves * "
+    "outputs (element count of the tables, not rows): mirrored by the model, group ids are checked against the table rows",
+]
+RULE = ("corpus (the three fixed defects: dstep all-missing feature, affine constant feature, kbest unsorted hashes) first; "
+        "exhaustive small: 3 samples x one scalar feature in {0, 1, missing}^3 x gradients {-1, 0, 1}^3 for stump / hinge / affine and "
+        "one 2-class feature in {0, 1, missing}^3 for dense / dstep / kbest / ksplit (sampled 10% in quick, all 5103 in thorough); random "
+        "structured: 2..60 samples (45% <= 8), 1..8 features grouped single-label / multi-label (1..6 classes, label sets from a small "
+        "pool or uniform) / scalar (small integers with ties, dyadic, one-decimal, two-valued, constant, duplicated column), missing "
+        "rate 0 / 0.1 / 0.3 / 0.6 / all, 1..3 outputs, integer / quarter / sparse gradients (8% planted stump / table residuals -> "
+        "clamped score), fitted sample lists: all / shuffled / subset / with repetitions / two samples, criterion rss 70%, "
+        "threads 1..16, scale vector of size 1 or one factor per table row, 0..3 extra fits merged; affine on a constant non-dyadic "
+        "feature with N = 2..10 on purpose; a case is non-trivial when a fitted feature has ties or missing values, the sample "
+        "list has repetitions or 2 entries; distinct by op text")
 FLAVOUR = {"quick": "plain", "thorough": "asan"}
 HARNESS_TIMEOUT = 1500
 RTOL = 1e-9
@@ -305,9 +348,9 @@ def gen(rng, tier):
     cp = os.path.join(vlib.VERIF, "corpus", "C10", "ops.txt")
     if os.path.exists(cp):
         ops += [l.strip() for l in open(cp) if l.strip() and not l.startswith("#")]
-    ops += gen_exhaustive_small(rng, 0.04 if tier == "quick" else 1.0)
-    n_random = 700 if tier == "quick" else 9000
-    n_const = 12 if tier == "quick" else 80
+    ops += gen_exhaustive_small(rng, 0.1 if tier == "quick" else 1.0)
+    n_random = 2500 if tier == "quick" else 12000
+    n_const = 25 if tier == "quick" else 100
     every = max(1, n_random // n_const)
     for k in range(n_random):
         if k % every == every // 2:
